@@ -88,6 +88,9 @@ func genB() *rapid.Generator[Case] {
 				switch op.K {
 				case "hdr", "rowitems":
 					k := rapid.IntRange(0, 3).Draw(t, "cells")
+					if gen.Rarely(t, "wide", 12) {
+						k = rapid.IntRange(9, 13).Draw(t, "widecells") // past the ten-entry capacity of the column list in one step
+					}
 					for j := 0; j < k; j++ {
 						op.Items = append(op.Items, item.Draw(t, "item"))
 					}
@@ -112,7 +115,7 @@ func genB() *rapid.Generator[Case] {
 			case "reg":
 				st.Owner = rapid.SampledFrom([]string{"table", "column", "row", "cell"}).Draw(t, "owner")
 				st.Ref = rapid.IntRange(0, 7).Draw(t, "ref")
-				st.Col = rapid.IntRange(0, 4).Draw(t, "col")
+				st.Col = rapid.SampledFrom([]int{0, 1, 2, 3, 4, -1, -1}).Draw(t, "col") // -1: the highest column of the moment
 				st.When = rapid.IntRange(0, 3).Draw(t, "when")
 				st.Target = rapid.IntRange(0, 2).Draw(t, "target")
 				if rapid.IntRange(0, 2).Draw(t, "many") == 0 {
